@@ -267,6 +267,20 @@ class C19(Prop):
             if again != dt or dt != again or hash(again) != h or len({dt, again}) != 1:
                 return Mismatch('a data type that has been hashed is not equal to the tree parsed from its JSON description',
                                 dump(again), dump(dt), 'C19:json:roundtrip-hashed', relation='spec')
+            # ... and for a tree that has been USED: converted values with it, described itself, served as a schema
+            try:
+                v = gen_value(rng, dt, True)
+                dt.needConversion()
+                dt.fromInternal(dt.toInternal(v))
+                dt.simpleString()
+                if not isinstance(dt, t.NullType):
+                    self.spark.createDataFrame([(v,)], t.StructType([t.StructField('x', dt, True)]), verifySchema=False).collect()
+            except Exception:  # pylint: disable=broad-except
+                pass          # (what these calls return is the subject of other cases; here only that the tree stays itself)
+            used = t._parse_datatype_json_string(dt.json())
+            if used != dt or dt != used or dump(used) != dump(dt):
+                return Mismatch('a data type that has been used (values converted, served as a schema) is not equal to the tree parsed '
+                                'from its JSON description', dump(used), dump(dt), 'C19:json:roundtrip-used', relation='spec')
             r = ask({'p': 'C19', 'op': 'parse', 'json': jv})
             if r['dump'] is None or canon(r['dump']) != canon(dump(dt)):
                 return Mismatch('Lean JSON parser differs from the real type tree', dump(dt), r['dump'], 'json-model:parse')
